@@ -86,6 +86,24 @@ pub fn int_domain(spec: &Spec, tier: Tier, rng: &mut Rng) -> Vec<Value> {
     for val in &spec.vals {
         if let Some(b) = val.bound() {
             neighbours_int(&fam, b, &mut out);
+            // inputs that separate the written bound from plausible mis-readings (sign dropped, off by the literal part)
+            match b {
+                Value::I(x) => {
+                    if let Some(n) = x.checked_neg() {
+                        neighbours_int(&fam, &Value::I(n), &mut out);
+                    }
+                    for m in [x / 2, x.saturating_mul(2), x.saturating_add(10), x.saturating_sub(10)] {
+                        if let Some(v) = clamp_int(&fam, m) {
+                            out.push(v);
+                        }
+                    }
+                }
+                Value::U(x) => {
+                    out.push(Value::U(x / 2));
+                    out.push(Value::U(x.saturating_mul(2)));
+                }
+                _ => {}
+            }
         }
     }
     if let Some(d) = &spec.default {
@@ -238,6 +256,7 @@ pub fn float_domain(spec: &Spec, tier: Tier, rng: &mut Rng) -> Vec<Value> {
             for val in &spec.vals {
                 if let Some(Value::F32(b)) = val.bound() {
                     f32_neigh(*b, &mut out);
+                    f32_neigh(*b ^ 0x8000_0000, &mut out);
                     // values near the bound on a coarser scale
                     let x = f32::from_bits(*b);
                     for d in [-1.0f32, -0.5, 0.5, 1.0] {
@@ -266,6 +285,7 @@ pub fn float_domain(spec: &Spec, tier: Tier, rng: &mut Rng) -> Vec<Value> {
             for val in &spec.vals {
                 if let Some(Value::F64(b)) = val.bound() {
                     f64_neigh(*b, &mut out);
+                    f64_neigh(*b ^ (1u64 << 63), &mut out);
                     let x = f64::from_bits(*b);
                     for d in [-1.0f64, -0.5, 0.5, 1.0] {
                         out.push(Value::f64(x + d));
